@@ -20,6 +20,7 @@ def main():
     try:
         build.build_harness(False)
         build.build_cli(False)
+        build.build_cli(True)
         if os.path.exists(build.SHIM_SRC):
             build.build_shim()
     except build.BuildError as e:
